@@ -376,3 +376,54 @@ def rules(ctx):
     no_mutation(ctx)
     from . import c02 as _c02
     _c02.zero_is_identity(ctx, "C03.generic-zero-test")
+    merge_more(ctx)
+
+
+def merge_more(ctx, rule="C03.merge-guards"):
+    from ..tables import op_classes
+    ctx.explain(f"{rule}: (all merge rules) every `merge` method of an operation class that builds its result from `other.p` while "
+                "`other` can be a Gate reads `other.dagger` (a daggered gate folded in by its parameters alone is applied un-daggered); "
+                "a merge that answers None (identity) after comparing a matrix with the identity compares with np.identity / np.eye "
+                "itself, not with a multiple of it (a global phase exp(i phi) on every mode is a rotation, not the identity).")
+    ops = op_classes(ctx.tree)
+    gate = ops.get("Gate")
+    n = 0
+    for cn, c in sorted(ops.items()):
+        f = c.methods.get("merge")
+        if f is None or len(f.pos_params) < 2:
+            continue
+        other = f.pos_params[1]
+        reads_p = any(isinstance(x, ast.Attribute) and x.attr == "p" and dotted(x.value) == other for x in walk_no_nested(f.node))
+        reads_d = any(isinstance(x, ast.Attribute) and x.attr == "dagger" and dotted(x.value) == other for x in walk_no_nested(f.node))
+        if reads_p:
+            # which classes can `other` have where its parameters are used?
+            may_gate = False
+            tested = []
+            for x in walk_no_nested(f.node):
+                if isinstance(x, ast.Call) and dotted(x.func) == "isinstance" and len(x.args) == 2 and dotted(x.args[0]) == other:
+                    for z in (x.args[1].elts if isinstance(x.args[1], ast.Tuple) else [x.args[1]]):
+                        tested.append(dotted(z) or "")
+            if not tested:
+                may_gate = gate is not None and gate in c.mro()
+            for t_ in tested:
+                nm = t_.split(".")[-1]
+                if t_ == "self.__class__":
+                    may_gate = may_gate or (gate is not None and gate in c.mro())
+                elif nm in ops and gate is not None and gate in ops[nm].mro():
+                    may_gate = True
+            if may_gate:
+                n += 1
+                ctx.ob(rule, f.site, reads_d, "" if reads_d else f"{cn}.merge builds its result from `{other}.p` of a gate without looking "
+                       f"at `{other}.dagger`: a daggered gate is merged as if it were not daggered", role="reads-other-dagger",
+                       line=f.node.lineno)
+        # identity comparison of a merged matrix
+        for x in walk_no_nested(f.node):
+            if isinstance(x, ast.Call) and (dotted(x.func) or "").split(".")[-1] == "allclose" and len(x.args) >= 2:
+                for a in x.args[:2]:
+                    if any(isinstance(y, ast.Call) and dotted(y.func) in ("np.identity", "np.eye") for y in ast.walk(a)):
+                        n += 1
+                        ok = isinstance(a, ast.Call) and dotted(a.func) in ("np.identity", "np.eye")
+                        ctx.ob(rule, f.site, ok, "" if ok else f"`{ast.unparse(a)[:50]}`: the merged matrix is compared with a multiple of "
+                               "the identity - a product that is a global phase / parity is cancelled as if it did nothing",
+                               role="identity-test-exact", line=x.lineno)
+    return n
